@@ -4,7 +4,6 @@ from __future__ import annotations
 
 import datetime
 import decimal
-import functools
 from typing import TYPE_CHECKING
 from typing import Any
 from typing import Union
@@ -62,7 +61,6 @@ def default(obj: Any, default_: object = "", *, allow_false: bool = False) -> An
 
 @with_environment
 @liquid_filter
-@functools.lru_cache(maxsize=10)
 def date(  # noqa: PLR0912 PLR0911
     dat: Union[datetime.datetime, str, int],
     fmt: str,
